@@ -1,6 +1,7 @@
 import Zog.Wire
 import Zog.Spec
 import Zog.Builder
+import Zog.Helpers
 import Zog.Msg
 import Zog.Gen.Tables
 import Zog.Gen.Facts
@@ -129,6 +130,40 @@ def runChain (args : List Sexp) : Option Sexp := do
     pure (node "res" [id, issueMapS (toIssueMap r.2.sink), node "dest" [dvalS r.1], node "log" (r.2.log.map eventS)])
   | _ => none
 
+def fieldMap? : Sexp → Option Helpers.FieldMap
+  | .list kvs => kvs.mapM fun kv => match kv with
+    | .list [k, v] => do pure (← k.str?, ← v.nat?)
+    | _ => none
+  | _ => none
+
+def keys? : Sexp → Option (List String)
+  | .list ks => ks.mapM Sexp.str?
+  | _ => none
+
+def hop? : Sexp → Option Helpers.Op
+  | .list [.atom "mk", f] => do pure (.mk (← fieldMap? f))
+  | .list [.atom "test", i, t] => do pure (.test (← i.nat?) (← t.nat?))
+  | .list [.atom "pick", i, ks] => do pure (.pick (← i.nat?) (← keys? ks))
+  | .list [.atom "omit", i, ks] => do pure (.omitKeys (← i.nat?) (← keys? ks))
+  | .list [.atom "extend", i, f] => do pure (.extend (← i.nat?) (← fieldMap? f))
+  | .list [.atom "merge", a, b] => do pure (.merge (← a.nat?) (← b.nat?))
+  | _ => none
+
+def insertKV (k : String) (v : Nat) : List (String × Nat) → List (String × Nat)
+  | [] => [(k, v)]
+  | (k', v') :: rest => if k < k' then (k, v) :: (k', v') :: rest else (k', v') :: insertKV k v rest
+
+/-- `(helpers ID OP...)`: the pure specification's view of every schema object after the program -/
+def runHelpers (args : List Sexp) : Option Sexp := do
+  match args with
+  | id :: ops => do
+    let ops ← ops.mapM hop?
+    let s := Helpers.Pure.run ops
+    pure (node "res" (id :: s.map fun o =>
+      let fs := o.fields.foldl (fun acc kv => insertKV kv.1 kv.2 acc) []
+      .list [.list (fs.map fun (k, v) => .list [mkStr k, mkNat v]), .list (o.tests.map mkNat)]))
+  | _ => none
+
 /-- `(path ID SEG...)`: PathBuilder.String on a segment stack -/
 def runPath (args : List Sexp) : Option Sexp := do
   match args with
@@ -168,6 +203,10 @@ def dispatch (line : String) : String :=
       match runEngine args with
       | some r => toString r
       | none => "(bad-case engine)"
+    | some ("helpers", args) =>
+      match runHelpers args with
+      | some r => toString r
+      | none => "(bad-case helpers)"
     | some ("chain", args) =>
       match runChain args with
       | some r => toString r
